@@ -11,6 +11,8 @@ import (
 	"strings"
 	"time"
 
+	"go/types"
+
 	"golang.org/x/tools/go/ssa"
 )
 
@@ -313,6 +315,24 @@ func generate(p *Prog, prop string, ff *FindingsFile, out *CheckOutcome) []*Obli
 			}
 		}
 	}
+	// encapsulation claims
+	for _, ow := range p.db.OwnsList {
+		if !hasProp(ow.Props, prop) {
+			continue
+		}
+		viol := checkOwns(p, ow)
+		g := NewGen(p)
+		g.prop = prop
+		cond := "true"
+		src := "fields " + strings.Join(ow.Fields, ", ") + " are written only by the listed functions"
+		if len(viol) > 0 {
+			cond = "false"
+			src += " — VIOLATED by: " + strings.Join(viol, "; ")
+		}
+		o := &Oblig{Name: shortCallee(ow.Pkg) + "#owns[" + strings.Join(ow.Fields, ",") + "]", Kind: "assert", Label: "owns", Props: []string{prop}, NCmds: 0, Reach: "true", Cond: cond, Src: src, Gen: g, Expect: "unsat", Pos: fmt.Sprintf("%s:%d", ow.File, ow.Line)}
+		g.obligs = append(g.obligs, o)
+		obs = append(obs, o)
+	}
 	// lemmas
 	for _, lm := range p.db.Lemmas {
 		if lm.Axiom || !strings.HasPrefix(lm.Label, prop+".") {
@@ -341,6 +361,97 @@ func generate(p *Prog, prop string, ff *FindingsFile, out *CheckOutcome) []*Obli
 	}
 	sort.Strings(out.Trusted)
 	return obs
+}
+
+// checkOwns scans every function of the package for writes to the owned fields outside the owner list.
+func checkOwns(p *Prog, ow *Owns) []string {
+	owned := map[string]bool{}
+	for _, f := range ow.Fields {
+		owned[f] = true
+	}
+	owner := map[string]bool{}
+	for _, f := range ow.Funcs {
+		owner[f] = true
+	}
+	var viol []string
+	var names []string
+	for n := range p.funcs {
+		names = append(names, n)
+	}
+	sort.Strings(names)
+	for _, n := range names {
+		fn := p.funcs[n]
+		if fn.Pkg == nil && fn.Parent() == nil {
+			continue
+		}
+		pk := fn.Pkg
+		if pk == nil {
+			for par := fn.Parent(); par != nil && pk == nil; par = par.Parent() {
+				pk = par.Pkg
+			}
+		}
+		if pk == nil || pk.Pkg.Path() != ow.Pkg || owner[n] {
+			continue
+		}
+		for _, b := range fn.Blocks {
+			for _, in := range b.Instrs {
+				fa, ok := in.(*ssa.FieldAddr)
+				if !ok {
+					continue
+				}
+				pt, ok := fa.X.Type().Underlying().(*types.Pointer)
+				if !ok {
+					continue
+				}
+				nt, ok := pt.Elem().(*types.Named)
+				if !ok {
+					continue
+				}
+				su := nt.Underlying().(*types.Struct)
+				key := nt.Obj().Name() + "." + su.Field(fa.Field).Name()
+				if !owned[key] {
+					continue
+				}
+				for _, ref := range *fa.Referrers() {
+					switch r := ref.(type) {
+					case *ssa.Store:
+						if r.Addr == fa {
+							viol = append(viol, fmt.Sprintf("%s stores to %s", shortCallee(n), key))
+						}
+					case *ssa.UnOp:
+						// loaded value: map updates / deletes / non-pure method calls through it are writes
+						if r.Referrers() == nil {
+							continue
+						}
+						for _, r2 := range *r.Referrers() {
+							switch u := r2.(type) {
+							case *ssa.MapUpdate:
+								if u.Map == r {
+									viol = append(viol, fmt.Sprintf("%s updates map %s", shortCallee(n), key))
+								}
+							case *ssa.Call:
+								c := u.Common()
+								if bi, ok := c.Value.(*ssa.Builtin); ok && bi.Name() == "delete" && len(c.Args) > 0 && c.Args[0] == r {
+									viol = append(viol, fmt.Sprintf("%s deletes from map %s", shortCallee(n), key))
+								}
+								if !c.IsInvoke() && c.StaticCallee() != nil && c.StaticCallee().Signature.Recv() != nil && len(c.Args) > 0 && c.Args[0] == r {
+									name := calleeName(c)
+									fc := p.db.Lookup(name, "")
+									if !(fc != nil && fc.Pure) && !NewGen(p).effectFree(name) {
+										viol = append(viol, fmt.Sprintf("%s calls %s on %s", shortCallee(n), shortCallee(name), key))
+									}
+								}
+							}
+						}
+					case *ssa.DebugRef:
+					default:
+						viol = append(viol, fmt.Sprintf("%s takes the address of %s", shortCallee(n), key))
+					}
+				}
+			}
+		}
+	}
+	return viol
 }
 
 func clauseHasProp(fc *FuncContract, prop string) bool {
@@ -428,7 +539,7 @@ func runCheck(o checkOpts) *CheckOutcome {
 		// a broken contract file of another property (named …_cNN.go) does not concern this check
 		base := strings.ToLower(filepath.Base(f))
 		other := false
-		if i := strings.Index(base, "_c"); i >= 0 && strings.HasSuffix(base, ".go") {
+		if i := strings.LastIndex(base, "_c"); i >= 0 && strings.HasSuffix(base, ".go") {
 			tag := strings.TrimSuffix(base[i+1:], ".go")
 			if len(tag) >= 3 && tag[1] >= '0' && tag[1] <= '9' && !strings.EqualFold(tag, o.prop) {
 				other = true
@@ -537,6 +648,13 @@ func runCheck(o checkOpts) *CheckOutcome {
 			continue
 		}
 		if r.O.Kind == "cover-info" {
+			out.Unreachable = append(out.Unreachable, fmt.Sprintf("%s: %s", r.O.Name, r.Res.Status))
+			r.OK = true
+			continue
+		}
+		if r.O.Expect == "sat" && r.Res.Status != "unsat" {
+			// satisfiability not shown within the time limit (sat queries with quantified assumptions are hard):
+			// only a PROVEN contradiction (unsat) is a vacuity error
 			out.Unreachable = append(out.Unreachable, fmt.Sprintf("%s: %s", r.O.Name, r.Res.Status))
 			r.OK = true
 			continue
